@@ -59,6 +59,10 @@ def scenarios(quick):
             out.append({'fam': 'D', 'I': 1, 's0': 0.0, 'script': sc, 'I2': I2, 'bound': 1 if quick else 2})
         out.append({'fam': 'D', 'I': 1, 's0': 0.0, 'script': ((0.0, 1, 'none'),), 'I2': I2, 'script2': ((0.0, 1, 'raise'),),
                     'bound': 1})
+    # the callback is passed under a second name of the same function (al::cb; .timer(..;al)) and that name is redefined
+    for I in (1, 2):
+        for sc in (((0.0, 1, 'redefine'), (0.0, 1, 'none')), ((0.0, 1, 'none'), (0.0, 1, 'redefine'), (0.0, 1, 'none'))):
+            out.append({'fam': 'L', 'I': I, 's0': 0.0, 'script': sc, 'alias': True, 'bound': 1})
     return out
 
 
@@ -144,8 +148,8 @@ class Run:
                 mo.live, mo.why = False, 'was cancelled by the other timer'
             elif action == 'redefine':
                 nv = 'v2' if m.version == 'v1' else 'v1'
-                self.kl('%s::{%s%s()}' % ('cb' if name == 't' else 'cb2', 'tick' if name == 't' else 'tock',
-                                          '2' if nv == 'v2' else ''))
+                cbname = ('al' if self.sc.get('alias') else 'cb') if name == 't' else 'cb2'
+                self.kl('%s::{%s%s()}' % (cbname, 'tick' if name == 't' else 'tock', '2' if nv == 'v2' else ''))
                 m.version = nv
             elif action == 'raise':
                 m.raised = True
@@ -176,7 +180,11 @@ class Run:
             kl('cb::{tick()}')
             kl('cb2::{tock()}')
             self.models = {'t': TimerModel(I, s0)}
-            th = kl('th::.timer("t";%d;cb)' % I)
+            if sc.get('alias'):
+                kl('al::cb')
+                th = kl('th::.timer("t";%d;al)' % I)
+            else:
+                th = kl('th::.timer("t";%d;cb)' % I)
             handles = {'t': th}
             if 'I2' in sc:
                 self.models['u'] = TimerModel(sc['I2'], s0)
@@ -295,6 +303,8 @@ def describe(sc):
     def ent(e):
         return '(dur=%gI ret=%d %s)' % e
     s = 'I=%d start=%r script=%s' % (sc['I'], sc['s0'], ' '.join(ent(e) for e in sc['script']))
+    if sc.get('alias'):
+        s += ' callback passed under its second name (al::cb; .timer(..;al); redefinitions go to al)'
     if 'ext' in sc:
         s += ' ext-cancel=%s#%d' % (sc['ext'][1], sc['ext'][0])
     if 'I2' in sc:
